@@ -54,7 +54,7 @@ func libGoroutines() []string {
 	return out
 }
 
-var c20Endings = []string{"Close", "CloseNow", "peer-close-then-Close", "protocol-error-then-CloseNow", "ctx-expiry-then-Close", "cut-eof-then-Close", "cut-err-then-CloseNow", "silent-peer-Close", "peer-close-then-CloseNow", "closeread-data-then-Close"}
+var c20Endings = []string{"Close", "CloseNow", "peer-close-then-Close", "protocol-error-then-CloseNow", "ctx-expiry-then-Close", "cut-eof-then-Close", "cut-err-then-CloseNow", "silent-peer-Close", "peer-close-then-CloseNow", "closeread-data-then-Close", "closeread-partial-data-stall-then-CloseNow", "closeread-partial-data-stall-then-Close"}
 
 func runC20(r *Run) {
 	t := r.Tape
@@ -84,7 +84,7 @@ func runC20(r *Run) {
 		if p.closeRead {
 			p.abReader, p.netconn = false, false
 		}
-		if p.ending == 9 {
+		if p.ending >= 9 {
 			p.closeRead, p.abReader, p.netconn = true, false, false
 		}
 		if p.pair && p.ending >= 2 {
@@ -285,6 +285,16 @@ func runC20(r *Run) {
 				cerr = c.Close(websocket.StatusNormalClosure, "done")
 			} else {
 				cerr = c.CloseNow()
+			}
+		case 10, 11:
+			// the header of a data frame and part of its payload, then silence
+			b := peer.Encode(wsref.Frame{Fin: true, Opcode: wsref.OpBinary, Payload: make([]byte, 100)})
+			peer.SendBytes(b[:len(b)-60])
+			r.S.Sleep(time.Second)
+			if p.ending == 10 {
+				cerr = c.CloseNow()
+			} else {
+				cerr = c.Close(websocket.StatusNormalClosure, "done")
 			}
 		case 9:
 			peer.Send(wsref.Frame{Fin: true, Opcode: wsref.OpText, Payload: []byte("unexpected data")})
